@@ -213,6 +213,32 @@ def execute(case: dict) -> dict:
         loop.run_until_idle()
         open_after_100s = not st_.closing
         answered_after_100s = bytes(peer.received)
+        # liveness probe: a connection that is still open after a stream that ended at a message boundary, with every
+        # handler through, must take the next request (or be closed) - "open, idle and deaf" is the stuck state of the property
+        if (open_after_100s and disc is None and bad_at is None and not any(r.get("upgrade") or r.get("close") for r in reqs)
+                and refhttp.strict_read(stream)[1][0] == "ok" and len(handled) >= len(reqs)):
+            mark = len(peer.received)
+            n_handled = len(handled)
+            peer.send(b"GET /probe HTTP/1.1\r\nHost: a\r\nX-Id: 9999\r\n\r\n")
+            t_probe = loop.time() + 30.0
+            for _ in range(200):
+                loop.run_until_idle()
+                if len(peer.received) > mark or st_.closing:
+                    break
+                nt = loop.next_timer()
+                if nt is None or nt > t_probe:
+                    break
+                loop._vtime = max(loop._vtime, nt)
+            loop.run_until_idle()
+            got = bytes(peer.received[mark:])
+            if not got and not st_.closing:
+                raise Violation("open-but-deaf", f"the connection is open and idle after {len(reqs)} answered request(s), but a further request gets no response within 30 s "
+                                f"(server transport reading paused: {st_.reading_paused}; protocol _reading_paused={getattr(proto, '_reading_paused', None)}, "
+                                f"queue-paused={getattr(proto, '_msg_queue_paused', None)})")
+            # keep the accounting below about the generated pipeline only
+            del peer.received[mark:]
+            del handled[n_handled:]
+            stats["probed"] = True
         # phase B: let every remaining timer fire (keep-alive 3630 s ...)
         for _ in range(200):
             loop.run_until_idle()
@@ -355,6 +381,10 @@ def body(rec: Rec, case: dict) -> None:
         labels.append("declined_upgrade")
     if stats["max_queue"] >= 16:
         labels.append("queue>=16")
+    if stats.get("probed"):
+        labels.append("liveness-probe")
+    if case.get("server_kw"):
+        labels.append("small-read-buffer")
     rec.case(case, nt, labels)
 
 
@@ -370,7 +400,7 @@ def cases(draw, deep: bool = False, with_bad: bool = False):
     for i in range(n):
         h = draw(st.sampled_from(HANDLERS if not deep else ["ret", "ret", "ret", "ret", "yield", "read_body", "ignore_body"]))
         bk = draw(st.sampled_from(["none", "none", "cl", "chunked"]))
-        r = {"h": h, "body": bk, "n": draw(st.sampled_from([0, 1, 5, 70])) if bk != "none" else 0}
+        r = {"h": h, "body": bk, "n": draw(st.sampled_from([0, 1, 5, 70] + ([300, 300] if deep else []))) if bk != "none" else 0}
         if h == "yield":
             r["k"] = draw(st.integers(1, 4))
         if h == "sleep":
@@ -413,6 +443,10 @@ def cases(draw, deep: bool = False, with_bad: bool = False):
                     r["h"], r["t"] = "sleep", 0.5  # everything pipelined behind it arrives while the handler runs
                 else:
                     r["h"], r["k"] = "yield", draw(st.integers(1, 8))
+    if deep and draw(st.booleans()):
+        # a small read buffer: bodies above twice its size pause reading on their own account, on top of the pause the
+        # full request queue asks for (two reasons to keep the transport paused, two conditions to resume it)
+        case["server_kw"] = {"read_bufsize": draw(st.sampled_from([16, 64, 128]))}
     if draw(st.integers(0, 3)) == 0:
         case["disconnect_at"] = draw(st.integers(1, 40))
         case["disc_kind"] = draw(st.sampled_from(["close", "reset"]))
@@ -423,6 +457,40 @@ def unit_hyp(rec: Rec, n: int, offset: int, deep: bool, with_bad: bool) -> None:
     hyp.run(rec, cases(deep, with_bad), body, n, seed_offset=offset, max_root_causes=5)
 
 
+def queue_grid_cases() -> list[dict]:
+    """Two reasons to pause reading at once: the parsed-request queue is full (a slow first handler, > 32 requests in one
+    read) and a body behind the cap is larger than twice a small read buffer.  Every placement of that body, both framings."""
+    out = []
+    for rb in (16, 64):
+        for total in (33, 34, 36, 40):
+            for pos in sorted({total - 1, total - 2, 32, 33, 20} & set(range(1, total))):
+                for bk in ("cl", "chunked"):
+                    for size in (70, 300):
+                        for first in ({"h": "sleep", "t": 0.5}, {"h": "yield", "k": 3}):
+                            for hb in ("ret", "read_body"):
+                                reqs = [dict(first, body="none", n=0)] + [{"h": "ret", "body": "none", "n": 0} for _ in range(total - 1)]
+                                reqs[pos] = {"h": hb, "body": bk, "n": size}
+                                out.append({"requests": reqs, "cuts": [], "burst": 1, "server_kw": {"read_bufsize": rb}})
+    return out
+
+
+def unit_queue_grid(rec: Rec, shard: int, nshards: int) -> None:
+    rec.exhaustive = True
+    for i, case in enumerate(queue_grid_cases()):
+        if i % nshards != shard:
+            continue
+        if rec.expired():
+            rec.exhaustive = False
+            return
+        try:
+            body(rec, case)
+        except Violation as v:
+            if v.key in rec.muted:
+                continue
+            rec.fail(v.key, v.msg, case)
+            rec.muted.add(v.key)
+
+
 def units(tier: str, seed: int) -> list[Unit]:
     n = 400 if tier == "quick" else 6000
     us = []
@@ -430,8 +498,10 @@ def units(tier: str, seed: int) -> list[Unit]:
         us.append(Unit(f"mixed{i}", unit_hyp, {"n": n, "offset": i, "deep": False, "with_bad": False}))
     for i in range(6):
         us.append(Unit(f"bad{i}", unit_hyp, {"n": n, "offset": 20 + i, "deep": False, "with_bad": True}))
-    for i in range(3):
-        us.append(Unit(f"deep{i}", unit_hyp, {"n": max(10, n // 6), "offset": 40 + i, "deep": True, "with_bad": i == 2}))
+    for i in range(6):
+        us.append(Unit(f"deep{i}", unit_hyp, {"n": max(10, n // 4), "offset": 40 + i, "deep": True, "with_bad": i == 2}))
+    for sh in range(4):
+        us.append(Unit(f"queue-grid{sh}", unit_queue_grid, {"shard": sh, "nshards": 4}))
     return us
 
 
